@@ -548,6 +548,33 @@ func (b *burst) judgeBurst() (violation string, overlaps int, waiters int) {
 					return fmt.Sprintf("BulkGet(%v) returned %d for key %d, which no loader invocation or write ever produced for that key", c.Keys, v, k), overlaps, waiters
 				}
 			}
+			if c.Err == "" {
+				// every requested key is accounted for: a key left out of the result of a BulkGet that reported
+				// no error was answered "not in the data source" by some load of that key - a failed load
+				// must surface as the error instead
+				for _, k := range c.Keys {
+					if _, got := c.Res[k]; got {
+						continue
+					}
+					ok := false
+					for _, in := range byKey[k] {
+						if in.Enter > c.Ret {
+							continue
+						}
+						if in.Out == loNotFound {
+							ok = true
+						}
+						if in.Bulk && in.Out == loValue {
+							if _, supplied := in.Vals[k]; !supplied {
+								ok = true
+							}
+						}
+					}
+					if !ok {
+						return fmt.Sprintf("BulkGet(%v) at [%d,%d] returned no error and no value for key %d, but no loader invocation for that key that started before the call returned answered not-found or left the key out", c.Keys, c.Call, c.Ret, k), overlaps, waiters
+					}
+				}
+			}
 		case "Refresh", "BulkRefresh":
 			if c.NilChan {
 				return fmt.Sprintf("%s returned a nil channel although refreshing is configured", c.Kind), overlaps, waiters
